@@ -5,11 +5,11 @@
 package tr
 
 import (
-	"os"
 	"errors"
 	"fmt"
 	"io"
 	"net"
+	"os"
 	"runtime"
 	"sync"
 	"sync/atomic"
@@ -73,7 +73,7 @@ type Conn struct {
 	CloseErr error // returned by the server-side Close (the connection is closed all the same)
 	rdl, wdl time.Time
 	Yield    func() // called (outside the lock) at every Read/Write for schedule diversity
-	addr  *Addr
+	addr     *Addr
 }
 
 func NewConn(user any) *Conn {
@@ -124,6 +124,7 @@ func (c *Conn) Read(p []byte) (int, error) {
 		}
 		return 0, ErrInjected
 	}
+again:
 	for len(c.in) == 0 {
 		if c.inErr != nil {
 			c.ended = true
@@ -149,6 +150,17 @@ func (c *Conn) Read(p []byte) (int, error) {
 	}
 	c.blocked = false
 	seg := c.in[0]
+	if len(seg) == 0 {
+		// pause marker: the client stays silent for longer than any deadline the server may have set.
+		// With a read deadline pending that deadline fires (virtual time, no waiting); without one a
+		// pause cannot be observed.
+		c.in = c.in[1:]
+		if !c.rdl.IsZero() {
+			c.log(Event{Kind: "T", N: c.consumed})
+			return 0, os.ErrDeadlineExceeded
+		}
+		goto again
+	}
 	n := copy(p, seg)
 	if c.FailByteAt >= 0 && c.consumed+n > c.FailByteAt {
 		n = c.FailByteAt - c.consumed
@@ -212,8 +224,8 @@ func (c *Conn) Close() error {
 	return c.CloseErr
 }
 
-func (c *Conn) LocalAddr() net.Addr                { return &Addr{C: c} }
-func (c *Conn) RemoteAddr() net.Addr               { return c.addr }
+func (c *Conn) LocalAddr() net.Addr  { return &Addr{C: c} }
+func (c *Conn) RemoteAddr() net.Addr { return c.addr }
 
 // Deadlines behave like those of a TCP connection (the pinned tree sets none; a tree that uses
 // them - idle timeouts, interrupting blocked reads on shutdown - must not look wedged here).
@@ -265,6 +277,29 @@ func (c *Conn) SendCut(b []byte, cuts []int) {
 			continue
 		}
 		c.Send(b[prev:k])
+		prev = k
+	}
+	c.Send(b[prev:])
+}
+
+// SendCutPaused is SendCut with a pause (longer than any read deadline) between the segments.
+func (c *Conn) SendCutPaused(b []byte, cuts []int) {
+	prev := 0
+	push := func(x []byte) {
+		if len(x) == 0 {
+			return
+		}
+		c.Send(x)
+		c.mu.Lock()
+		c.in = append(c.in, []byte{})
+		c.cond.Broadcast()
+		c.mu.Unlock()
+	}
+	for _, k := range cuts {
+		if k <= prev || k >= len(b) {
+			continue
+		}
+		push(b[prev:k])
 		prev = k
 	}
 	c.Send(b[prev:])
